@@ -47,15 +47,22 @@ type KnownFile struct {
 
 type Merged struct {
 	Cases, Enumerated, Transitions, Validated, NonTrivial, ViolationsN int64
-	States                                                            map[string]struct{}
-	Outcomes                                                          map[string]int64
-	Samples                                                           []json.RawMessage
-	Violations                                                        []recordedViolation
-	Caps, Notes                                                       []string
-	Bounds, Selftests                                                 map[string]string
-	Groups                                                            map[string]int64
-	DeadlineHit                                                       bool
-	WorkerDeaths                                                      []string
+	States                                                             map[string]struct{}
+	Outcomes                                                           map[string]int64
+	Samples                                                            []json.RawMessage
+	Violations                                                         []recordedViolation
+	Caps, Notes                                                        []string
+	Bounds, Selftests                                                  map[string]string
+	Groups                                                             map[string]int64
+	DeadlineHit                                                        bool
+	WorkerDeaths                                                       []string
+	deaths                                                             []deathInfo
+}
+
+type deathInfo struct {
+	detail, group string
+	index         int64
+	hang          bool
 }
 
 func verifDir() string {
@@ -97,8 +104,11 @@ func Supervise(spec Spec, tier string) int {
 
 	self, _ := os.Executable()
 	type wres struct {
-		res   *Result
-		death string
+		res        *Result
+		death      string
+		deathGroup string
+		deathIndex int64
+		deathHang  bool
 	}
 	results := make([]wres, n)
 	var wg sync.WaitGroup
@@ -134,6 +144,11 @@ func Supervise(spec Spec, tier string) int {
 				idx = int64(binary.LittleEndian.Uint64(jb[:8]))
 				gh = hex.EncodeToString(jb[8:16])
 			}
+			if len(jb) > 16 {
+				results[i].deathGroup = strings.TrimRight(string(jb[16:]), "\x00")
+				results[i].deathIndex = idx
+			}
+			results[i].deathHang = strings.Contains(string(func() []byte { b, _ := os.ReadFile(logp); return b }()), "HANG: no case completed")
 			lb, _ := os.ReadFile(logp)
 			tail := string(lb)
 			if len(tail) > 3000 {
@@ -148,6 +163,7 @@ func Supervise(spec Spec, tier string) int {
 	for i, w := range results {
 		if w.res == nil {
 			m.WorkerDeaths = append(m.WorkerDeaths, w.death)
+			m.deaths = append(m.deaths, deathInfo{w.death, w.deathGroup, w.deathIndex, w.deathHang})
 			continue
 		}
 		r := w.res
@@ -226,8 +242,15 @@ func Supervise(spec Spec, tier string) int {
 			fresh = append(fresh, v)
 		}
 	}
-	for _, d := range m.WorkerDeaths {
-		fresh = append(fresh, recordedViolation{Violation: Violation{Clause: "worker-death", Trigger: "process-abort", Detail: d}, Group: "?", Index: -1, Desc: json.RawMessage(`"see detail"`), Confirmed: 5})
+	for _, d := range m.deaths {
+		clause, trig, grp := "worker-death", "process-abort", d.group
+		if d.hang {
+			clause, trig = "hang", "no-return-within-case-deadline"
+		}
+		if grp == "" {
+			grp = "?"
+		}
+		fresh = append(fresh, recordedViolation{Violation: Violation{Clause: clause, Trigger: trig, Detail: d.detail}, Group: grp, Index: d.index, Desc: json.RawMessage(`"the case the worker was executing when it stopped; replay re-executes it under the same watchdog"`), Confirmed: 1})
 	}
 
 	exit := 0
@@ -416,7 +439,25 @@ func Replay(spec Spec, file string) int {
 	}
 	c := NewCtx(spec.ID, rf.Tier, 0, 1, "", time.Hour)
 	c.SetReplay(rf.Group, rf.Index)
+	// the replayed case runs under the same absolute deadline as in a worker
+	go func() {
+		for {
+			time.Sleep(time.Second)
+			if c.Progress() > 0 {
+				start := time.Now()
+				for c.Progress() == 1 && !c.replayDone.Load() {
+					time.Sleep(time.Second)
+					if time.Since(start) > CaseDeadline {
+						fmt.Printf("VIOLATION property=%s replay=%s\n  clause=hang trigger=no-return-within-case-deadline\n  case %s/%d did not return within %s\n", spec.ID, file, rf.Group, rf.Index, CaseDeadline)
+						os.Exit(1)
+					}
+				}
+				return
+			}
+		}
+	}()
 	spec.Run(c)
+	c.replayDone.Store(true)
 	if !c.Replayed() {
 		fmt.Printf("replay: case %s/%d not reached by the enumeration on this tree\n", rf.Group, rf.Index)
 		return 2
